@@ -67,6 +67,26 @@ std::vector<Item> random_options(Rng &r, int mode, int density) {
 	if (maybe(6)) pool.push_back({"-pedantic"});
 	if (maybe(10)) pool.push_back({r.coin(1, 2) ? "-Wall" : "-Wno-unused"});
 	if (maybe(8)) pool.push_back({"-v"});
+	// a long command line: the per-stage argument arrays grow past their initial capacity (32 pointers) more than once
+	if (maybe(6)) {
+		int many = 20 + (int)r.below(120);
+		for (int i = 0; i < many; i++) {
+			switch (r.below(5)) {
+			case 0: pool.push_back(opt_val(r, "-D", "M" + std::to_string(i) + "=" + std::to_string(i))); break;
+			case 1: pool.push_back(opt_val(r, "-I", "inc/d" + std::to_string(i))); break;
+			case 2: pool.push_back(opt_val(r, "-L", "lib/d" + std::to_string(i))); break;
+			case 3: pool.push_back({"-Wa,--opt" + std::to_string(i)}); break;
+			default: pool.push_back(opt_val(r, "-U", "U" + std::to_string(i))); break;
+			}
+		}
+	}
+	// option values that look like options themselves
+	if (maybe(8)) {
+		static const char *odd[] = {"-E", "-c", "-o", "-", "--", "-x", "-lfoo", "-Wl,x", ""};
+		static const char *opts[] = {"-D", "-U", "-I", "-L"};
+		const char *o = opts[r.below(4)];
+		pool.push_back({o, odd[r.below(9)]});  // detached only: attached "-D-E" is simply the value "-E"
+	}
 	// the same option more than once: every occurrence is passed on, in order
 	if (!pool.empty() && maybe(25)) {
 		int nd = 1 + (int)r.below(2);
@@ -100,7 +120,10 @@ Scenario gen_c17(uint64_t seed) {
 	Scenario sc;
 	sc.prop = "C17";
 	sc.origin_seed = seed;
-	sc.argv.push_back(r.coin(1, 4) ? "/opt/x/bin/cproc" : "cproc");
+	{
+		static const char *names[] = {"cproc", "cproc", "cproc", "/opt/x/bin/cproc", "./cproc", "bin/cproc", "cc", ""};
+		sc.argv.push_back(names[r.below(8)]);
+	}
 	sc.readlink_fail = r.coin(1, 6);
 	sc.pipe_cap = 1 + r.below(4);
 	sc.pid_base = 50 + r.below(5000);
@@ -114,15 +137,15 @@ Scenario gen_c17(uint64_t seed) {
 
 	// inputs, in order, with -x switches inline
 	std::vector<Item> inseq;
-	int ninputs = 1 + (r.coin(3, 5) ? r.below(2) : r.below(6));
+	int ninputs = 1 + (r.coin(3, 5) ? r.below(2) : r.coin(1, 10) ? r.below(12) : r.below(6));
 	bool have_dash = false;
 	bool xactive = false;
 	int nentries = 0;
-	static const char *dirs[] = {"", "", "src/", "../x/", "/abs/", "src.d/", "../v1.2/", "./"};
+	static const char *dirs[] = {"", "", "src/", "../x/", "/abs/", "src.d/", "../v1.2/", "./", "./-", "a b/", "x,y/", "k=v/"};
 	for (int i = 0; i < ninputs; i++) {
 		int ty;
 		do ty = (int)r.below(NTY); while (mode == LINK && ty == TY_H);
-		std::string base = std::string(dirs[r.below(8)]) + (r.coin(1, 12) ? "." : "") + "f" + std::to_string(i) + (r.coin(1, 6) ? ".x" : "");
+		std::string base = std::string(dirs[r.below(r.coin(1, 6) ? 12 : 8)]) + (r.coin(1, 12) ? "." : "") + "f" + std::to_string(i) + (r.coin(1, 6) ? ".x" : "");
 		if (r.coin(1, 8) && TYPES[ty].xlang && !(mode == LINK && ty == TY_H)) {
 			// forced language, arbitrary or missing suffix, or standard input
 			inseq.push_back(opt_val(r, "-x", TYPES[ty].xlang));
